@@ -346,7 +346,7 @@ Definition structurally_ok (cs : schema) (w : wf) : Prop :=
   (forall c r, In c (w_comps w) -> In r (c_refs c) -> exists c', In c' (w_comps w) /\ c_id c' = r) /\
   (forall u, ~ clos_trans cid (wedge w) u u) /\
   (forall c, In c (w_comps w) -> vars_resolvable w c) /\
-  (forall c, In c (w_comps w) -> hard_errs cs (c_doc c) "" = []) /\
+  (forall c, In c (w_comps w) -> doc_hard_errs cs (c_doc c) = []) /\
   stages_ok w = true /\
   (forall x, ~ clos_trans string (edge (gvar_graph w)) x x).
 
